@@ -81,7 +81,7 @@ def hgTopJson (h : HG) : Json := hgMember .json h
 
 /-- `bson.Marshal(g)` = `MarshalBSON`: no `null` short cut -/
 def hgTopBson : HG → Json
-  | .nilPtr => .null
+  | .nilPtr => .obj [("type", .str "")]      -- fix C02-4: the empty geometry document, as for `&Geometry{}`
   | .mk _ coords geoms => hgBody .bson coords (hgMembers .bson geoms)
 
 /-- `bson.Marshal(struct{ G *geojson.Geometry `bson:"g"` }{g})`: the member through `MarshalBSONValue` -/
@@ -101,7 +101,7 @@ end
 
 /-- `bson.Marshal` of the value (top level or as a struct field) panics: the bson encoder calls
     `MarshalBSON` / `MarshalBSONValue` on a nil `*Geometry`, and both read `g.Coordinates` first -/
-def hgBsonPanics (h : HG) : Bool := hgHasNil h
+def hgBsonPanics (_h : HG) : Bool := false   -- fix C02-4: a nil receiver is written as BSON null
 
 mutual
 /-- the geometry a CONSISTENT hand-built value stands for (`g.Geometry()`): only `Coordinates` set,
@@ -150,13 +150,13 @@ def DG.isColl (d : DG) : Bool :=
   | _ => false
 
 /-- the assignments of `UnmarshalJSON` / `UnmarshalBSON` after the switch: a coordinate arm sets
-    `g.Coordinates` ONLY, the collection arm sets `g.Geometries` ONLY; then
-    `g.Type = g.Geometry().GeoJSONType()`. -/
+    `g.Coordinates` and clears `g.Geometries`, the collection arm sets `g.Geometries` and clears
+    `g.Coordinates` (fix C02-3); then `g.Type = g.Geometry().GeoJSONType()`. -/
 def GRecv.assign (r : GRecv) (d : DG) : GRecv :=
   let r' : GRecv :=
     match d.v with
-    | .val (.collection gs) => { r with geoms := if d.bare then none else some gs }
-    | v => { r with coords := some v }
+    | .val (.collection gs) => { r with coords := none, geoms := if d.bare then none else some gs }
+    | v => { r with coords := some v, geoms := none }
   { r' with ty := typeOfV r'.geometry }
 
 /-- `g.UnmarshalJSON(data)` / `g.UnmarshalBSON(data)` with `g` holding `old`: the receiver
